@@ -47,6 +47,8 @@ def cases(draw, tier):
             if pad2:
                 others = [y for y in el if y != c] or [c]
                 case['ballots'].append([pad2, [[d.choice(others)]]])
+    if case['rule'] in model.GREGORY and d.p(3):
+        case = gen.astronomic(d, case)      # beyond 2^53 ballots the quota formula must still be exact
     return case
 
 
@@ -63,7 +65,7 @@ def expected_quota(case, o, votes):
     rule = case['rule']
     ar = o.arith
     s = case['nseats']
-    if rule in ('scotland', 'mpls') or (rule == 'wigm' and o.E.options.getopt('integer_quota')):
+    if rule in ('scotland', 'mpls') or (rule == 'wigm' and bool((case.get('options') or {}).get('integer_quota'))):
         return Fraction(int(votes) // (s + 1) + 1)
     q = Fraction(votes) / (s + 1)
     if ar.is_exact:
@@ -88,6 +90,11 @@ def check(case):
         return res
     n = o.nballots
     und = set(case.get('undeclared') or []) if rule == 'mpls' else set()
+    # ---- 0. the arithmetic whose quota formula applies is the one that was asked for
+    bad = common.arithmetic_not_as_requested(case, ar)
+    if bad:
+        res.fail('formula', 'formula|arithmetic-not-as-requested|' + base, bad)
+        return res
     # ---- 1. formula
     from ..exact import frac
     q0 = frac(o.record.get('quota')) if 'quota' in o.record else None
